@@ -12,7 +12,10 @@ def split_ops(c): return c.split(" ; ")[1:]
 def split_res(o): return o.split(" ; ")
 def conc_of(e): return e.split(" ## ")[0] if e else e
 def spec_of(e): return e.split(" ## ")[1] if e and " ## " in e else ""
-def agree(c, o, e): return o == conc_of(e)
+_DUR = re.compile(r" !(unsynced=\d+|unwritten)")
+def agree(c, o, e):
+    # the durability markers are the monitor's business (and are re-checked before they are believed)
+    return _DUR.sub("", o) == conc_of(e)
 
 EV = re.compile(r"e(\d+):q(\d+):v(\d+)([^,)\s]*)")
 def groups(s):
@@ -83,6 +86,8 @@ def monitor_kinds(kinds, cls, after_crash_all=False, durable=False):
                 if m: return (cls + ":" + k, f"op {i}: {m}")
         return None
     return mon
+
+def RECHECK(cls): return cls.endswith(":fsync") or cls.endswith(":timeout")
 
 def nontrivial(c, o):
     ops = split_ops(c)
